@@ -9,8 +9,7 @@ import Oracle.Util
    stats rbmerge <rpn> <p0>|<p1>…      → R{<bucket result>}
 
    <vals> = "-" | comma separated  i<int64> | d<decimal> | s<hex> | z
-   float64 operations are `roundF64` of the exact result.  A string that strconv.ParseFloat may read as NaN/Inf,
-   hexadecimal or underscore-separated number makes the query-time ops answer `unmodelled`. -/
+   float64 operations are `roundF64` of the exact result.  The model is the code with the repairs c04-1..4. -/
 namespace Oracle.C04S
 open SigModel.Stats Oracle
 
@@ -95,26 +94,6 @@ def vals? (tok : String) : Option (List Val) :=
 
 def parts? (tok : String) : Option (List (List Val)) := (tok.splitOn "|").mapM vals?
 
-def lower (c : Nat) : Nat := if 65 ≤ c ∧ c ≤ 90 then c + 32 else c
-
-/-- syntactic class "special" (same test as st4StrClass in the harness): not a strict decimal numeral, and
-(optional sign + inf|infinity|nan, case-insensitive) or contains '_' 'x' 'X' -/
-def isSpecial (s : Str) : Bool :=
-  let strict := match scanDec s with
-    | some d => !(d.ip.isEmpty && d.fp.isEmpty)
-    | none => false
-  if strict then false else
-  let t := s.map lower
-  let t := match t with
-    | 43 :: r => r
-    | 45 :: r => r
-    | _ => t
-  t == [105, 110, 102] || t == [105, 110, 102, 105, 110, 105, 116, 121] || t == [110, 97, 110] ||
-    s.any (fun c => c == 95 || c == 120 || c == 88)
-
-def hasSpecial (vs : List Val) : Bool :=
-  vs.any (fun v => match v with | .str s => isSpecial s | _ => false)
-
 /-- strict index numeral: digits, no sign, no leading zero -/
 def index? (t : String) : Option Nat :=
   let cs := t.toList
@@ -143,7 +122,6 @@ def foldq (args : List String) : String :=
   match args with
   | [v] => match vals? v with
     | some vs =>
-      if hasSpecial vs then "unmodelled" else
       let st := foldQ roundF64 vs
       "Q{" ++ showState st ++ "} D{" ++ showDerived (derive roundF64 st) ++ "}"
     | none => "bad-op"
@@ -176,7 +154,6 @@ def merge (args : List String) : String :=
       | none => "bad-op"
       | some none => "panic"
       | some (some st) =>
-        if mode = "q" ∧ hasSpecial ps.flatten then "unmodelled" else
         "M{" ++ showState st ++ "} D{" ++ showDerived (derive roundF64 st) ++ "}"
     | none => "bad-op"
   | _ => "bad-op"
